@@ -112,6 +112,8 @@ def enc_shape(shape) -> str:
 
 
 def attr_canon(a: ir.Attr, case: Case):
+    if a.is_ref():
+        return ("ref", a.ref_attr_name)
     t = a.type
     if t == ir.AttributeType.INT:
         return ("i", int(a.value))
@@ -129,6 +131,8 @@ def attr_canon(a: ir.Attr, case: Case):
 
 
 def enc_attr(name: str, a: ir.Attr, case: Case, op: str) -> str:
+    if a.is_ref():
+        return f"{name}=r:{a.ref_attr_name}"
     t = a.type
     if t == ir.AttributeType.INT:
         return f"{name}=i:{int(a.value)}"
@@ -203,9 +207,9 @@ def enc_graph(g: ir.Graph, case: Case, vis: dict) -> list[str]:
     return out
 
 
-def encode_case(case: Case, model: ir.Model) -> None:
+def encode_case(case: Case, model: ir.Model, graph=None, is_function: bool = False) -> None:
     vis: dict[str, str] = {}
-    gtoks = enc_graph(model.graph, case, vis)
+    gtoks = enc_graph(model.graph if graph is None else graph, case, vis)
     for name in vis:
         if not SAFE.match(q(name)):
             raise core.Infra(f"unsafe value name {name!r}")
@@ -213,7 +217,7 @@ def encode_case(case: Case, model: ir.Model) -> None:
     for d, v in model.opset_imports.items():
         imps += [q(d), str(v)]
     case.static = {
-        "head": f"fold L={case.in_limit} M={case.out_limit} SF={case.should_fold} FN=0 IMP {len(model.opset_imports)} " + " ".join(imps),
+        "head": f"fold L={case.in_limit} M={case.out_limit} SF={case.should_fold} FN={1 if is_function else 0} IMP {len(model.opset_imports)} " + " ".join(imps),
         "vi": f"VI {len(vis)} " + " ".join(vis.values()),
         "graph": " ".join(gtoks),
     }
@@ -249,6 +253,8 @@ def answer(case: Case, key: str) -> None:
             kwargs[k] = ir.serde.serialize_tensor(ir.tensor(arr))
         elif v.startswith("o:"):
             kwargs[k] = case.opaque[v[2:]][1]
+        elif v.startswith("r:"):
+            kwargs[k] = None  # a reference attribute has no value: process_node passes `attr.value` = None
     res = "!F"
     try:
         cls = onnx.reference.ops.load_op("" if dom == "~" else dom, op, int(ver))
@@ -373,6 +379,8 @@ def canon_model_side(case: Case, g: dict, env=None, path=""):
                 if c is None:
                     arr, dv = case.arr(v[2:])
                     c = ("t", arr_hash(arr, dv))
+            elif v.startswith("r:"):
+                c = ("ref", v[2:])
             else:
                 c = case.opaque[v[2:]][0]
             attrs.append((k, c))
